@@ -146,39 +146,29 @@ Definition payload_ids : list (N * string) :=
   ; (PayloadRRCP, "PayloadRRCP"); (PayloadLLDP, "PayloadLLDP"); (Payload802_11r, "Payload802_11r")
   ; (PayloadIEEE1905, "PayloadIEEE1905"); (PayloadSonos, "PayloadSonos"); (Payload880a, "Payload880a") ].
 
+(* The rows of a switch over constants form a set (Go forbids duplicate constant cases: the order of the cases means
+   nothing), so both sides compare the rows SORTED BY KEY; the tagless UDP port switch, where the first matching case
+   wins, is compared in source order. *)
+Fixpoint insert_row {A} (r : N * A) (l : list (N * A)) : list (N * A) :=
+  match l with
+  | [] => [r]
+  | x :: xs => if fst r <=? fst x then r :: l else x :: insert_row r xs
+  end.
+Definition sort_rows {A} (l : list (N * A)) : list (N * A) := fold_right insert_row [] l.
+
 Definition show_row (r : N * N) : string := dec_of_N (fst r) ++ ">" ++ dec_of_N (snd r).
 Definition show_port_row (r : port_side * list N * N) : string :=
   match r with
   | (side, ports, id) =>
-      (match side with SrcOrDst => "e" | DstOnly => "d" end) ++ join "." (map dec_of_N ports) ++ ">" ++ dec_of_N id
+      (match side with SrcOrDst => "e" | DstOnly => "d" end) ++ join "." (map dec_of_N (map fst (sort_rows (map (fun p => (p, tt)) ports)))) ++ ">" ++ dec_of_N id
   end.
 
 Definition show_table (kind : string) : option string :=
-  if String.eqb kind "payloadid" then Some (join "," (map (fun r => dec_of_N (fst r) ++ ":" ++ snd r) payload_ids))
+  if String.eqb kind "payloadid" then
+    Some (join "," (map (fun r => dec_of_N (fst r) ++ ":" ++ snd r) (sort_rows payload_ids)))
   else if String.eqb kind "ethertype" then
     (* the 802.3 length test in front of the switch, then the switch rows *)
-    Some (join "," (("lt1536>" ++ dec_of_N Payload8023) :: map show_row ethertype_rows))
-  else if String.eqb kind "ipproto" then Some (join "," (map show_row ipproto_rows))
+    Some (join "," (("lt1536>" ++ dec_of_N Payload8023) :: map show_row (sort_rows ethertype_rows)))
+  else if String.eqb kind "ipproto" then Some (join "," (map show_row (sort_rows ipproto_rows)))
   else if String.eqb kind "udpports" then Some (join "," (map show_port_row udp_port_rows))
   else None.
-
-(* ---------------------------------------------------------------- *)
-(* The exported surface of packet.Frame (dispatch kind "m"): Go signature and what covers it in the model.
-   The harness obtains the same line by reflection; a method or exported field added to Frame makes them differ. *)
-Definition frame_methods : list (string * string) :=
-  [ ("Ether()packet.Ether", "frame_ether")
-  ; ("HasIP()bool", "frame_has_ip (reads the two offsets)")
-  ; ("IP4()packet.IP4", "frame_ip4")
-  ; ("IP6()packet.IP6", "frame_ip6")
-  ; ("Log(*fastlog.Line)*fastlog.Line", "frame_log (fields + len(Payload()))")
-  ; ("Payload()[]uint8", "frame_payload")
-  ; ("TCP()packet.TCP", "frame_tcp")
-  ; ("UDP()packet.UDP", "frame_udp") ].
-Definition frame_fields : list (string * string) :=
-  [ ("DstAddr:packet.Addr", "f_dst (MAC = p[0:6], IP, Port)")
-  ; ("Host:*packet.Host", "f_host (the key; the record belongs to the host table)")
-  ; ("PayloadID:packet.PayloadID", "f_id")
-  ; ("Session:*packet.Session", "back pointer, not modelled")
-  ; ("SrcAddr:packet.Addr", "f_src (MAC = p[6:12], IP, Port)") ].
-Definition frame_api : string :=
-  "methods=" ++ join "," (map fst frame_methods) ++ " fields=" ++ join "," (map fst frame_fields).
